@@ -4,6 +4,7 @@ From Coq Require Import List ZArith NArith Bool.
 From BS Require Import Base.Sexp Base.Types Base.Reader Model.Registry Model.SmartQuotes Model.Attrs Model.Heap Model.Edit Model.Build Model.Iter Model.EditOps Spec.Tree Spec.BuildSpec Spec.ListEdit.
 From BS Require Import Run.D_C15.
 From BS Require Import Run.D_C04 Run.D_C18.
+From BS Require Import Run.D_C06.
 Import ListNotations.
 Open Scope Z_scope.
 
@@ -234,6 +235,7 @@ Definition cmd_history (args : list sexp) : sexp :=
 Definition disp_ext (code : Z) (args : list sexp) : sexp :=
   let nn := code / 1000 in let sub := code mod 1000 in
   match nn with
+  | 6 => disp_c06 sub args
   | 18 => disp_c18 sub args
   | 4 => disp_c04 sub args
   | 15 => disp_c15 sub args
